@@ -99,19 +99,16 @@ func (c vxCommit) OnCommit(context.Context, types.Height, vxV) bool {
 func (c vxCommit) Listen() <-chan sync.CommittedBlock { return nil }
 
 func vxNewDriver(l *vxLog, commitOK bool) *Driver[vxV, vxH, vxA] {
-	return &Driver[vxV, vxH, vxA]{
-		logger:         log.NewNopZapLogger(),
-		db:             vxWAL{l},
-		commitListener: vxCommit{l, commitOK},
-		broadcasters: p2p.Broadcasters[vxV, vxH, vxA]{
+	// the real constructor (whatever it initialises is initialised); the state machine is set by the
+	// harnesses that need one
+	d := New[vxV, vxH, vxA](log.NewNopZapLogger(), vxWAL{l}, nil, vxCommit{l, commitOK},
+		p2p.Broadcasters[vxV, vxH, vxA]{
 			ProposalBroadcaster:  vxBcast[*types.Proposal[vxV, vxH, vxA]]{l},
 			PrevoteBroadcaster:   vxBcast[*types.Prevote[vxH, vxA]]{l},
 			PrecommitBroadcaster: vxBcast[*types.Precommit[vxH, vxA]]{l},
-		},
-		getTimeout:   func(types.Step, types.Round) time.Duration { return time.Hour },
-		scheduledTms: make(map[types.Timeout]*time.Timer),
-		timeoutsCh:   make(chan types.Timeout),
-	}
+		}, p2p.Listeners[vxV, vxH, vxA]{}, nil, nil,
+		func(types.Step, types.Round) time.Duration { return time.Hour })
+	return &d
 }
 
 func vxAction(tag string) actions.Action[vxV, vxH, vxA] {
